@@ -642,8 +642,11 @@ def run(ctx):
         "0<=r0<=r1<=H+2 (<=3 rows), 0<=c0<=c1<=W, block rows of every length 0..w+1 and one reaching past the array edge, 2-palette, given as "
         "list of str / list of FmtStr / FSArray / mixed, rows of different lengths, one row too few/many; a[r0:r1]=block; a[r,c]=[..] and "
         "a[r,c]='x'; fresh symbol per step; depth %d with deduplication on the rows' run structure; all read forms compared in every "
-        "successor; plus fsarray(strings, width) for all lists of <=2 strings. transitions = assignments executed; states = distinct arrays"
-        % (3 if ctx.thorough else 2, 3 if ctx.thorough else 2)
+        "successor; plus fsarray(strings, width) for all lists of <=2 strings; plus sessions on ONE live object: every read form before and after every "
+        "assignment of every history of <= %d assignments from a 48-entry menu (incl. empty-width regions that only grow the array), one block of "
+        "1..%d rows at 7 start rows (inside / straddling / beyond the bottom) x 2 column ranges x 3 block kinds on 4 initial heights, and 108 "
+        "painting sessions of %d writes (12-format palette incl. inverse-video blanks). transitions = assignments executed; states = distinct arrays"
+        % (3 if ctx.thorough else 2, 3 if ctx.thorough else 2, 3 if ctx.thorough else 2, 120 if ctx.thorough else 70, 260 if ctx.thorough else 130)
     )
     rep.bounds = {"depth": 3 if ctx.thorough else 2}
     rep.assumptions = [
